@@ -539,6 +539,27 @@ Proof.
   apply comp_table_spec; [apply groups_nonempty|apply restricted_classes; assumption].
 Qed.
 
+(* every compute() of every history of updates and computes is the statistic of the rows fed before it: compute() leaves the
+   accumulators as they were (instance of Model/Accum.v history_outputs) *)
+Lemma comp_upd_is_spec m parts seen : NoDup parts -> all_in_range parts ->
+  comp m (length parts) (upd st row st_zero st_plus (contrib parts) st_zero seen) = spec_metric m (groups parts seen).
+Proof.
+  intros Hnd Hr. pose proof (run_entry_is_spec m parts [seen] Hnd Hr) as H.
+  cbn [concat] in H. rewrite app_nil_r in H. exact H.
+Qed.
+
+Theorem run_history_is_spec m parts h : NoDup parts -> all_in_range parts ->
+  run_history m parts h = spec_history m parts [] h.
+Proof.
+  intros Hnd Hr. unfold run_history.
+  rewrite (history_outputs0 st row (option Qc) st_zero st_plus (contrib parts) (comp m (length parts))
+             st_plus_assoc st_plus_zero_r st_plus_zero_l h).
+  generalize (@nil row) as seen. induction h as [|[b|] h IH]; intros seen; cbn [expected_outputs spec_history].
+  - reflexivity.
+  - apply IH.
+  - rewrite (comp_upd_is_spec m parts seen Hnd Hr), IH. reflexivity.
+Qed.
+
 (* ================================================================ empty classes are irrelevant *)
 Theorem empty_classes_irrelevant_tbl m tbl1 tbl2 : filter nonzero tbl1 = filter nonzero tbl2 -> comp_table m tbl1 = comp_table m tbl2.
 Proof.
